@@ -18,6 +18,9 @@
  * Tokens: L U (API entry/exit)  K+ K- (coap_lock_callback)  R+ R- (…_ret)  X+ X- (…_release)  Y+ Y- (…_ret_release)
  *         W+ W- (release window of an internal function: coap_lock_unlock(c) … coap_lock_lock(c, failed)).
  *   lkwin <file> <func>                        lock-balance facts of the static scan (sites file)
+ *   lkeintr <rc>                               an I/O thread in coap_io_process() is interrupted by a signal while
+ *                                              another thread holds the lock inside an event callback: `ok` |
+ *                                              `unserialised early-return=<0|1> lock-owner-assert=<0|1>`
  *   lkctxfail <mode>                           coap_new_context() made to fail (mode 0: the listen address cannot be
  *                                              bound): `ret=null held=<the mutex is still taken afterwards>`
  * argv: <binary for the other rc variant | -> <sites file | -> [<name>=<probe binary>]...
@@ -143,12 +146,14 @@ static void turn_end(prog_t *p) {
     print_obs("");
 }
 
+static volatile int h_real_block;   /* lkeintr: real threads inside the library: coap_mutex_lock() really blocks */
 #if LOCKING
 /* coap_mutex_lock() of the real lock functions.  Single-thread mode: a thread that would block on a mutex it cannot
  * get is a self-deadlock; report it and leave (the line is over).  Multi-thread mode: "blocked" is reported to the
  * scheduler and the acquisition is retried at the thread's next turn (turn-based semantics, as in the model). */
 static int h_mutex_lock(pthread_mutex_t *m) {
   prog_t *p = self;
+  if (h_real_block) return pthread_mutex_lock(m);
   for (;;) {
     if (pthread_mutex_trylock(m) == 0) return 0;
     if (!p || p->idx < 0) {
@@ -417,6 +422,94 @@ static void do_ctxfail(int mode) {
   reset_lock();
 }
 
+/* ------------------------------------------------------------------ lkeintr: a signal interrupts the I/O thread's wait
+ * An I/O thread loops in coap_io_process(ctx, 200).  The main thread waits until it sits in epoll_wait() (inside the
+ * release window of coap_io_process_with_fds_lkd), then calls coap_handle_event(): the event handler runs under the
+ * library lock (coap_lock_callback_ret), sends SIGUSR1 to the I/O thread (no-op handler, no SA_RESTART: epoll_wait()
+ * returns EINTR) and keeps the lock for 60 ms.  Serialised = the I/O thread does not come back from coap_io_process()
+ * during that time and no lock-owner assert() of coap_lock_unlock_func fires.  `ok` needs >= 1 round in which
+ * epoll_wait() really returned EINTR (counted by the --wrap'ed epoll_wait). */
+#ifdef COAP_EPOLL_SUPPORT
+#include <sys/epoll.h>
+int __real_epoll_wait(int, struct epoll_event *, int, int);
+static pthread_t ew_thread;
+static volatile int ew_track, ew_in, ew_eintr;
+int __wrap_epoll_wait(int epfd, struct epoll_event *ev, int max, int to) {
+  int r, mine = ew_track && pthread_equal(pthread_self(), ew_thread);
+  if (mine) ew_in = 1;
+  r = __real_epoll_wait(epfd, ev, max, to);
+  if (mine) { if (r < 0 && errno == EINTR) ew_eintr++; ew_in = 0; }
+  return r;
+}
+static coap_context_t *ei_ctx;
+static volatile int ei_stop, ei_in_handler, ei_early, ei_calls;
+static void on_usr1(int sig) { (void)sig; }
+static void *ei_io(void *arg) {
+  (void)arg;
+  self = NULL;
+  while (!ei_stop) {
+    coap_io_process(ei_ctx, 200);
+    if (ei_in_handler) ei_early = 1;      /* came back while the other thread is inside its locked callback */
+    ei_calls++;
+  }
+  return NULL;
+}
+static int ei_event(coap_session_t *session, const coap_event_t event) {
+  int before = ei_calls;
+  (void)session; (void)event;
+  ei_in_handler = 1;                      /* the library lock is held by this (the main) thread */
+  pthread_kill(ew_thread, SIGUSR1);
+  for (int i = 0; i < 60 && ei_calls == before; i++) usleep(1000);
+  if (ei_calls != before) ei_early = 1;
+  ei_in_handler = 0;
+  return 0;
+}
+static void do_eintr(void) {
+#if LOCKING
+  struct sigaction sa;
+  int effective = 0;
+  memset(&sa, 0, sizeof(sa));
+  sa.sa_handler = on_usr1;
+  sigaction(SIGUSR1, &sa, NULL);
+  ei_ctx = coap_new_context(NULL);
+  if (!ei_ctx) { printf("no-context"); return; }
+  coap_register_event_handler(ei_ctx, ei_event);
+  ei_stop = ei_in_handler = ei_early = ei_calls = 0; ew_in = ew_eintr = 0;
+  h_real_block = 1;
+  pthread_create(&ew_thread, NULL, ei_io, NULL);
+  ew_track = 1;
+  for (int round = 0; round < 12 && effective < 2 && !ei_early && !h_fault; round++) {
+    int e0 = ew_eintr, c0;
+    for (int i = 0; i < 1000 && !ew_in; i++) usleep(1000);
+    usleep(3000);                         /* let it enter the system call */
+    c0 = ei_calls;
+    coap_handle_event(ei_ctx, COAP_EVENT_KEEPALIVE_FAILURE, NULL);
+    for (int i = 0; i < 400 && ei_calls == c0; i++) usleep(1000);
+    if (ew_eintr != e0) effective++;
+  }
+  ei_stop = 1;
+  pthread_kill(ew_thread, SIGUSR1);
+  pthread_join(ew_thread, NULL);
+  ew_track = 0;
+  {
+    int fault = h_fault;
+    h_real_block = 0;
+    reset_lock();
+    coap_free_context(ei_ctx);
+    ei_ctx = NULL;
+    if (ei_early || fault) printf("unserialised early-return=%d lock-owner-assert=%d", ei_early, fault);
+    else if (!effective) printf("ineffective");
+    else printf("ok");
+  }
+  reset_lock();
+#else
+  printf("ok");
+#endif
+}
+#else
+static void do_eintr(void) { printf("no-epoll"); }
+#endif
+
 /* ------------------------------------------------------------------ lksmoke (support: TSan multi-thread run) */
 static const char *smoke_bin;
 static void do_smoke(const char *n, const char *seed, const char *ms) {
@@ -479,12 +572,13 @@ static void step(char *line) {
   if (l >= sizeof(copy)) { printf("bad-op"); return; }
   memcpy(copy, line, l); copy[l] = 0;
   int n = h_words(line, w, MAXTOK + 8);
-  if (n >= 2 && (!strcmp(w[0], "lkseq") || !strcmp(w[0], "lksched"))) {
+  if (n >= 2 && (!strcmp(w[0], "lkseq") || !strcmp(w[0], "lksched") || !strcmp(w[0], "lkeintr"))) {
     int rc = !strcmp(w[1], "1") ? 1 : !strcmp(w[1], "0") ? 0 : -1;
     if (rc < 0) { printf("bad-op"); return; }
     if (rc != MY_RC) { co_forward(copy); return; }
     alarm(20);
-    if (!strcmp(w[0], "lkseq")) do_seq(w + 2, n - 2);
+    if (!strcmp(w[0], "lkeintr")) { if (n == 2) do_eintr(); else printf("bad-op"); }
+    else if (!strcmp(w[0], "lkseq")) do_seq(w + 2, n - 2);
     else if (n == 4) do_sched(w[2], w[3]);
     else printf("bad-op");
     alarm(0);
